@@ -316,7 +316,7 @@ func checkCmd(opts *RunOpts, args []string) int {
 	witnessCache := map[string]bool{}
 	var unsatCore []string
 	cexCache := map[string]*Cex{}
-	var cov_order, cov_rel, cov_neg, cov_q, cov_d, cov_f, cov_w, cov_su map[string]any
+	var cov_order, cov_rel, cov_neg, cov_q, cov_d, cov_f, cov_w, cov_su, cov_c map[string]any
 
 	for _, res := range run.Results {
 		if res.Trusted {
@@ -565,6 +565,15 @@ func checkCmd(opts *RunOpts, args []string) int {
 		}
 		cov_su = cv
 	}
+	if run.CRan {
+		_, vl, cv := boundedListVerdict(opts, prop, known, "bounded.clock.views", "none.txt", run.CFailing, run.CTotal,
+			"schema A, B (Multi), C (Removes A), D (Adds B, Requires A); every history of up to 3 (thorough: 4) mutations over Add/Remove/Set of each state, Add{A,B}, CanAdd, CanRemove; variants: no handlers, vetoing CEnter, panicking AEnter, panicking BState",
+			"", "break the clock views (tick parity = Is = ActiveStates = !Not, Time = Tick = Clock, ticks never decrease, step +1 / +2 only as documented, canceled and check-only transitions move nothing)", nil)
+		if vl != "" {
+			violations = append(violations, vl)
+		}
+		cov_c = cv
+	}
 	if run.WRan {
 		_, vl, cv := boundedListVerdict(opts, prop, known, "bounded.waiting.histories", "none.txt", run.WFailing, run.WTotal,
 			"every history of up to 3 single-state Add/Remove mutations over A and the Multi state B, one subscription of every kind (When, WhenNot, WhenTime, WhenTicks, state context) taken at every position, on a fresh machine and after SetSchema",
@@ -662,6 +671,9 @@ func checkCmd(opts *RunOpts, args []string) int {
 	}
 	if cov_rel != nil {
 		cov["bounded_relations_standin"] = cov_rel
+	}
+	if cov_c != nil {
+		cov["bounded_clock_standin"] = cov_c
 	}
 	if cov_su != nil {
 		cov["schema_constants_unchanged_by_use"] = cov_su
